@@ -819,9 +819,11 @@ static void builtin_alloca(void) {
   println("  add $15, %%rdi");
   println("  and $-16, %%rdi");
 
-  // Shift the temporary area by %rdi.
-  println("  mov %d(%%rbp), %%rcx", current_fn->alloca_bottom->offset);
-  println("  sub %%rsp, %%rcx");
+  // Shift the temporary area by %rdi. It holds what has been pushed in
+  // the expression so far. (Its size is not taken from a run-time
+  // record of earlier allocations: longjmp does not restore such a
+  // record when it restores %rsp.)
+  println("  mov $%d, %%rcx", depth * 8);
   println("  mov %%rsp, %%rax");
   println("  sub %%rdi, %%rsp");
   println("  mov %%rsp, %%rdx");
@@ -836,10 +838,8 @@ static void builtin_alloca(void) {
   println("  jmp 1b");
   println("2:");
 
-  // Move alloca_bottom pointer.
-  println("  mov %d(%%rbp), %%rax", current_fn->alloca_bottom->offset);
-  println("  sub %%rdi, %%rax");
-  println("  mov %%rax, %d(%%rbp)", current_fn->alloca_bottom->offset);
+  // The memory obtained lies above the temporary area.
+  println("  lea %d(%%rsp), %%rax", depth * 8);
 }
 
 // Text that the preprocessor made up (the result of #, ##, a builtin
